@@ -287,7 +287,7 @@ Proof.
   pose proof (append_slice_mlen _ _ _ _ E2) as L2.
   change (mlen opt_header_default) with 9 in L1. change (mlen [0; 0]) with 2 in L2.
   assert (E02 : Ext c (mlen (w_buf w)) w w2) by (eapply Ext_trans; eauto; lia).
-  destruct (opt_patches c w w2 (oh_udp oh) (oh_ext oh * 256 + oh_ver oh) (if oh_do oh then 32768 else 0) TB2 SI2 E02 ltac:(lia))
+  destruct (opt_patches c w w2 (oh_udp oh) (oh_ext oh * 256 + oh_ver oh) (oh_flags oh) TB2 SI2 E02 ltac:(lia))
     as (E3 & TB3 & SI3 & L3).
   match goal with |- context [compose_opts c opts ?x] => set (w3 := x) in * end.
   pose proof (compose_opts_nodead c opts w3) as ND.
@@ -466,8 +466,8 @@ Definition ex_ops : list op :=
    OpLimit (Some 50); OpR (mkR ex_name1 1 1 5 false [RBytes [1;2;3;4]]); OpLimit None;
    OpNext; OpR (mkR ex_name1 2 1 5 false [RName ex_name2]); OpRewind;
    OpR (mkR [] 6 1 5 true [RName ex_name2; RNameU ex_name1; RBytes [0;0;0;1]]);
-   OpHdr [171; 205; 129; 128];
-   OpNext; OpOpt (mkOH 1232 (Some 4083) 200 true) [(10, 8, [1;2;3;4;5;6;7;8])]].
+   OpHdr (sets_of_fields (fields_of_octets [171; 205; 129; 128]));
+   OpNext; OpOpt (mkOH 1232 (Some 4083) 200 32768 true) [(10, 8, [1;2;3;4;5;6;7;8])]].
 
 Lemma ex_ops_wf : Forall wf_op_sized ex_ops.
 Proof.
@@ -478,7 +478,7 @@ Proof.
   assert (N1 : name_ok ex_name1) by (split; [repeat constructor; apply V; reflexivity|cbn; lia]).
   assert (N2 : name_ok ex_name2) by (split; [repeat constructor; apply V; reflexivity|cbn; lia]).
   assert (N0 : name_ok []) by (split; [constructor|cbn; lia]).
-  unfold ex_ops. repeat constructor; cbn [wf_op wf_q wf_r wf_oh oh_udp oh_ver q_name q_type q_class r_owner r_type r_class r_ttl r_data wf_item]; unfold wf_oh; cbn [oh_udp oh_ver];
+  unfold ex_ops. repeat constructor; cbn [wf_op wf_q wf_r wf_oh oh_udp oh_ver oh_flags q_name q_type q_class r_owner r_type r_class r_ttl r_data wf_item]; unfold wf_oh; cbn [oh_udp oh_ver oh_flags];
     auto; try lia; try exact I; repeat constructor; auto; try lia; try exact I; cbn; try lia.
 Qed.
 
@@ -504,10 +504,10 @@ Example failed_opt_push_refuted :
       let s1 := fst (step_gen false c s0 OpNext) in
       let s2 := fst (step_gen false c s1 OpNext) in
       let s3 := fst (step_gen false c (fst (step_gen false c s2 OpNext)) (OpLimit (Some 20))) in
-      let r := step_gen false c s3 (OpOpt (mkOH 1232 (Some 2748) 0 false) []) in
+      let r := step_gen false c s3 (OpOpt (mkOH 1232 (Some 2748) 0 0 true) []) in
       snd r = RErr E_LIMIT /\ firstn 4 (msg_of s3) = [0; 0; 0; 0] /\ firstn 4 (msg_of (fst r)) = [0; 0; 0; 12] /\
-      snd (step_gen true c s3 (OpOpt (mkOH 1232 (Some 2748) 0 false) [])) = RErr E_LIMIT /\
-      fst (step_gen true c s3 (OpOpt (mkOH 1232 (Some 2748) 0 false) [])) = s3
+      snd (step_gen true c s3 (OpOpt (mkOH 1232 (Some 2748) 0 0 true) [])) = RErr E_LIMIT /\
+      fst (step_gen true c s3 (OpOpt (mkOH 1232 (Some 2748) 0 0 true) [])) = s3
   | None => False
   end.
 Proof. vm_compute. repeat split; reflexivity. Qed.
@@ -530,4 +530,68 @@ Proof.
   - intros [h1 t1] [h2 t2] I1 I2 (hl1 & A1 & B1 & C1) (hl2 & A2 & B2 & C2). cbn [fst snd] in *. subst t1 t2.
     apply (CU h1 h2 pos hl1 hl2); auto.
     apply label_eq_spec in B1, B2. congruence.
+Qed.
+
+(* ------------------------------------------------- header setters, stream prefix *)
+
+(* octets 2 and 3 are set independently, octets 0 and 1 are the id *)
+Lemma hdr_apply_split p0 p1 p2 p3 i0 i1 w2 w3 :
+  hdr_apply [p0; p1; p2; p3] (fields_of_octets [i0; i1; w2; w3]) =
+  [ ((i0 * 256 + i1) / 256) mod 256; (i0 * 256 + i1) mod 256;
+    nth 2 (hdr_apply [0; 0; p2; 0] (fields_of_octets [0; 0; w2; 0])) 0;
+    nth 3 (hdr_apply [0; 0; 0; p3] (fields_of_octets [0; 0; 0; w3])) 0 ].
+Proof. reflexivity. Qed.
+
+Definition byte_values : list N := map N.of_nat (seq 0 256).
+Lemma in_byte_values x : x < 256 -> In x byte_values.
+Proof. intros H. apply in_map_iff. exists (N.to_nat x). split; [lia|apply in_seq; lia]. Qed.
+
+(* all 65536 (previous octet, wanted octet) pairs, for octet 2 and for octet 3 *)
+Lemma hdr_octet2_enum : forallb (fun p => forallb (fun w =>
+    nth 2 (hdr_apply [0; 0; p; 0] (fields_of_octets [0; 0; w; 0])) 0 =? w) byte_values) byte_values = true.
+Proof. vm_compute. reflexivity. Qed.
+Lemma hdr_octet3_enum : forallb (fun p => forallb (fun w =>
+    nth 3 (hdr_apply [0; 0; 0; p] (fields_of_octets [0; 0; 0; w])) 0 =? w) byte_values) byte_values = true.
+Proof. vm_compute. reflexivity. Qed.
+
+(* the setters of base/header.rs (offsets, bit positions, masks and the shift
+   are read from the source) realise the RFC 1035 header layout: called with
+   the fields of any four octets they produce those octets, whatever the
+   header held before *)
+Theorem header_setters_layout p0 p1 p2 p3 i0 i1 w2 w3 :
+  p2 < 256 -> p3 < 256 -> i0 < 256 -> i1 < 256 -> w2 < 256 -> w3 < 256 ->
+  hdr_apply [p0; p1; p2; p3] (fields_of_octets [i0; i1; w2; w3]) = [i0; i1; w2; w3].
+Proof.
+  intros P2 P3 I0 I1 W2 W3. rewrite hdr_apply_split.
+  pose proof hdr_octet2_enum as E2. pose proof hdr_octet3_enum as E3.
+  rewrite forallb_forall in E2, E3.
+  specialize (E2 p2 (in_byte_values _ P2)). specialize (E3 p3 (in_byte_values _ P3)).
+  rewrite forallb_forall in E2, E3.
+  specialize (E2 w2 (in_byte_values _ W2)). specialize (E3 w3 (in_byte_values _ W3)).
+  apply N.eqb_eq in E2, E3. rewrite E2, E3. f_equal; [lia|f_equal; lia].
+Qed.
+
+(* StreamTarget coordinates: the inner buffer is the two length octets followed
+   by the message; truncating the inner buffer to len + prefix (what
+   StreamTarget::truncate does) is truncating the message to len, and the
+   as_ref() view drops exactly the prefix *)
+Theorem stream_coordinates x (buf : bytes) len :
+  length (be16 x) = N.to_nat stream_prefix_len /\
+  skipn (N.to_nat stream_prefix_len) (be16 x ++ buf) = buf /\
+  skipn (N.to_nat stream_prefix_len) (firstn (N.to_nat (len + stream_prefix_len)) (be16 x ++ buf)) = firstn (N.to_nat len) buf.
+Proof.
+  unfold stream_prefix_len. split; [reflexivity|]. split; [reflexivity|].
+  replace (N.to_nat (len + 2)) with (S (S (N.to_nat len))) by lia. reflexivity.
+Qed.
+
+(* the StaticCompressor never remembers more than its 24 slots, and only
+   positions a compression pointer can express *)
+Lemma static_insert_bound pos es es' :
+  (length es <= 24)%nat -> static_insert pos es = Some es' ->
+  (length es' <= 24)%nat /\ pos < 16384 /\ es' = es ++ [pos].
+Proof.
+  unfold static_insert, static_ptr_limit, static_cap_lt, static_capacity. intros L H.
+  destruct (N.ltb_spec pos 16384) as [P|P]; [|discriminate].
+  destruct (N.ltb_spec (N.of_nat (length es)) 24) as [Q|Q]; [|discriminate].
+  injection H as <-. rewrite app_length. cbn [length]. repeat split; auto; lia.
 Qed.
